@@ -63,3 +63,6 @@ CHECKS["C14"] = ("in-process property-based testing (rapidcheck-driven term buil
 CHECKS["C27"] = ("in-process property-based testing + exhaustive boundary constants (rapidcheck, mpz Euclidean reference, libz3 for Int semantics)",
                  "div/mod folding on all pairs of a boundary pool against the Euclidean definition; generated integer relations and div/mod eliminations checked by libz3. Exploration (the constant pool is enumerated exhaustively).",
                  "mpz and libz3 as references", "DESIGN.md §4 C27")
+CHECKS["C16"] = ("property-based testing at two entry points: rapidcheck API harness (exact mpq parser as oracle, ASan/UBSan) and Hypothesis executable round trip through get-value/get-model",
+                 "Generated literal spellings (zeros everywhere, huge, junk) must denote their exact rational value through mkConst and through the SMT-LIB front end, print back exactly, or be rejected. Exploration only.",
+                 "own exact literal parser; our reader of printed values", "DESIGN.md §4 C16")
